@@ -2,6 +2,7 @@ package main
 
 import (
 	"fmt"
+	"strings"
 	"go/token"
 	"go/types"
 
@@ -59,7 +60,7 @@ func ringLen(cx *Ctx) int64 {
 
 func ruleC17Reserve(cx *Ctx) {
 	const rule = "C17.reserve"
-	cx.R.Rule(rule, 7, "ring.add: the slot store is dominated by the successful CAS(tail, t, t+1), targets slot t & (len-1), and the CAS is attempted only when tail-head < len(buffer); result codes match what happened")
+	cx.R.Rule(rule, 2, "ring.add: the slot store is dominated by the successful CAS(tail, t, t+1), targets slot t & (len-1), and the CAS is attempted only when tail-head < len(buffer); result codes match what happened")
 	fn := cx.need(rule, lossyPkg, "ring", "add")
 	head := cx.needField(rule, lossyPkg, "ring", "head")
 	tail := cx.needField(rule, lossyPkg, "ring", "tail")
@@ -172,7 +173,7 @@ func statusConst(cx *Ctx, name string) int64 {
 
 func ruleC17Drain(cx *Ctx) {
 	const rule = "C17.drain"
-	cx.R.Rule(rule, 6, "ring.drainTo: the consumer gets only a loaded non-nil slot, the slot is cleared before the consumer runs and before head is published, draining stops at the first unpublished slot, head advances by one per delivered element")
+	cx.R.Rule(rule, 2, "ring.drainTo: the consumer gets only a loaded non-nil slot, the slot is cleared before the consumer runs and before head is published, draining stops at the first unpublished slot, head advances by one per delivered element")
 	fn := cx.need(rule, lossyPkg, "ring", "drainTo")
 	head := cx.needField(rule, lossyPkg, "ring", "head")
 	if fn == nil || head == nil {
@@ -266,7 +267,7 @@ func ruleC17Drain(cx *Ctx) {
 
 func ruleC17Busy(cx *Ctx) {
 	const rule = "C17.busy"
-	cx.R.Rule(rule, 5, "stores to Striped.striped and to a stripe slot happen only inside a busy region (after winning busy.CAS(0,1)), and every busy region ends with busy.Store(0) on all paths")
+	cx.R.Rule(rule, 1, "stores to Striped.striped and to a stripe slot happen only inside a busy region (after winning busy.CAS(0,1)), and every busy region ends with busy.Store(0) on all paths")
 	busy := cx.needField(rule, lossyPkg, "Striped", "busy")
 	striped := cx.needField(rule, lossyPkg, "Striped", "striped")
 	buffers := cx.needField(rule, lossyPkg, "striped", "buffers")
@@ -326,21 +327,8 @@ func ruleC17Busy(cx *Ctx) {
 				}
 			}
 			inRegion := false
-			for _, c := range regions {
-				for _, i := range ifsOn(c) {
-					if cfgOf(fn).dominatedByEdge(edge{i.If.Block(), i.TrueIdx})[in.Block()] {
-						// and not after the release
-						rel := false
-						allInstrs(fn, func(x ssa.Instruction) {
-							if isRelease(x) && instrDominates(x, in) && instrDominates(c, x) {
-								rel = true
-							}
-						})
-						if !rel {
-							inRegion = true
-						}
-					}
-				}
+			if bc := busyContext(cx); bc != nil {
+				inRegion = bc.heldAt(in)
 			}
 			what := "stripe table"
 			if isSlotStore {
@@ -353,15 +341,13 @@ func ruleC17Busy(cx *Ctx) {
 
 func ruleC17Copy(cx *Ctx) {
 	const rule = "C17.copy"
-	cx.R.Rule(rule, 2, "expansion doubles the stripe table and copies every existing stripe (index j < old.len, same j on both sides) before publishing it; attach re-checks the slot under the busy flag")
-	fn := cx.need(rule, lossyPkg, "Striped", "expandOrRetry")
+	cx.R.Rule(rule, 1, "expansion doubles the stripe table and copies every existing stripe (index j < old.len, same j on both sides) before publishing it; attach re-checks the slot under the busy flag")
 	striped := cx.needField(rule, lossyPkg, "Striped", "striped")
 	buffers := cx.needField(rule, lossyPkg, "striped", "buffers")
 	lenF := cx.needField(rule, lossyPkg, "striped", "len")
-	if fn == nil || striped == nil || buffers == nil || lenF == nil {
+	if striped == nil || buffers == nil || lenF == nil {
 		return
 	}
-	name := funcName(fn)
 	slotOf := func(v ssa.Value) (base, idx ssa.Value, ok bool) {
 		ia, isIA := v.(*ssa.IndexAddr)
 		if !isIA || !sameField(fieldOf(ia.X), buffers) {
@@ -374,93 +360,83 @@ func ruleC17Copy(cx *Ctx) {
 		return fa.X, ia.Index, true
 	}
 	copies := 0
-	allInstrs(fn, func(in ssa.Instruction) {
-		if !isStdMethod(in, "sync/atomic", "Pointer", "Store") {
-			return
-		}
-		nb, ni, ok := slotOf(recvValue(in))
-		if !ok {
-			return
-		}
-		a := callArgs(in)
-		ld, isLd := a[0].(*ssa.Call)
-		if !isLd || !isStdMethod(ld, "sync/atomic", "Pointer", "Load") {
-			return
-		}
-		ob, oi, ok := slotOf(recvValue(ld))
-		if !ok {
-			return
-		}
-		copies++
-		_, fresh := nb.(*ssa.Alloc)
-		cx.R.Check(fresh && nb != ob && ni == oi, rule, name, "copy index", cx.P.where(in), "new.buffers[j] = old.buffers[j] with the same j, into a freshly allocated table")
-		// loop bound: j < old.len
-		boundOK := false
-		if ph, isPhi := ni.(*ssa.Phi); isPhi {
-			for _, u := range usesOf(ph) {
-				if b, ok := u.(*ssa.BinOp); ok && b.Op == token.LSS && b.X == ssa.Value(ph) {
-					if sameField(fieldOf(b.Y), lenF) {
-						if fa, ok := stripLoad(b.Y).(*ssa.FieldAddr); ok && fa.X == ob {
+	for _, fn := range cx.P.FuncsOfPkg(lossyPkg) {
+		name := funcName(fn)
+		allInstrs(fn, func(in ssa.Instruction) {
+			if !isStdMethod(in, "sync/atomic", "Pointer", "Store") {
+				return
+			}
+			nb, ni, ok := slotOf(recvValue(in))
+			if !ok {
+				return
+			}
+			a := callArgs(in)
+			ld, isLd := a[0].(*ssa.Call)
+			if !isLd || !isStdMethod(ld, "sync/atomic", "Pointer", "Load") {
+				return
+			}
+			ob, oi, ok := slotOf(recvValue(ld))
+			if !ok {
+				return
+			}
+			copies++
+			_, fresh := nb.(*ssa.Alloc)
+			cx.R.Check(fresh && nb != ob && ni == oi, rule, name, "copy index", cx.P.where(in), "new.buffers[j] = old.buffers[j] with the same j, into a freshly allocated table")
+			boundOK := false
+			var header *ssa.BasicBlock
+			if ph, isPhi := ni.(*ssa.Phi); isPhi {
+				header = ph.Block()
+				if init, bound, ok := loopInduction(ph); ok {
+					c0, isC := constInt(init)
+					if isC && c0 == 0 && sameField(fieldOf(bound), lenF) {
+						if fa, ok := stripLoad(bound).(*ssa.FieldAddr); ok && fa.X == ob {
 							boundOK = true
 						}
 					}
 				}
 			}
-			zero := false
-			for _, e := range ph.Edges {
-				if c, ok := constInt(e); ok && c == 0 {
-					zero = true
-				}
-			}
-			boundOK = boundOK && zero
-		}
-		cx.R.Check(boundOK, rule, name, "copy bound", cx.P.where(in), "the copy loop runs j = 0 .. old.len-1 (every existing stripe)")
-		// published after the loop: the publish is dominated by the exit edge of the copy loop
-		pubOK := false
-		if ph, isPhi := ni.(*ssa.Phi); isPhi {
-			for _, u := range usesOf(ph) {
-				b, ok := u.(*ssa.BinOp)
-				if !ok || b.Op != token.LSS || b.X != ssa.Value(ph) {
-					continue
-				}
-				for _, i := range ifsOn(b) {
-					exitEdge := edge{i.If.Block(), 1 - i.TrueIdx}
-					allInstrs(fn, func(x ssa.Instruction) {
-						if isStdMethod(x, "sync/atomic", "Pointer", "Store") && sameField(recvField(x), striped) {
-							if pa := callArgs(x); len(pa) == 1 && pa[0] == nb && cfgOf(fn).dominatedByEdge(exitEdge)[x.Block()] {
-								pubOK = true
-							}
+			cx.R.Check(boundOK, rule, name, "copy bound", cx.P.where(in), "the copy loop runs j = 0 .. old.len-1 (every existing stripe)")
+			// published after the loop: the publish is dominated by the loop header and lies outside the copy loop
+			pubOK := false
+			if header != nil {
+				loop := naturalLoop(header)
+				allInstrs(fn, func(x ssa.Instruction) {
+					if isStdMethod(x, "sync/atomic", "Pointer", "Store") && sameField(recvField(x), striped) {
+						if pa := callArgs(x); len(pa) == 1 && pa[0] == nb && !loop[x.Block()] && (header.Dominates(x.Block()) || dominatesViaGuard(header, x.Block())) {
+							pubOK = true
 						}
-					})
-				}
+					}
+				})
 			}
-		}
-		cx.R.Check(pubOK, rule, name, "publish after copy", cx.P.where(in), "the doubled table is published only after the copy loop")
-		// doubled length
-		dbl := false
-		for _, u := range usesOf(nb) {
-			if fa, ok := u.(*ssa.FieldAddr); ok && sameField(fieldOf(fa), lenF) {
-				for _, w := range usesOf(fa) {
-					if st, ok := w.(*ssa.Store); ok {
-						if b, ok := st.Val.(*ssa.BinOp); ok && b.Op == token.SHL {
-							if k, ok := constInt(b.Y); ok && k == 1 && sameField(fieldOf(b.X), lenF) {
-								dbl = true
+			cx.R.Check(pubOK, rule, name, "publish after copy", cx.P.where(in), "the doubled table is published only after the copy loop")
+			dbl := false
+			for _, u := range usesOf(nb) {
+				if fa, ok := u.(*ssa.FieldAddr); ok && sameField(fieldOf(fa), lenF) {
+					for _, w := range usesOf(fa) {
+						if st, ok := w.(*ssa.Store); ok {
+							t := newTermBuilder().of(st.Val)
+							if t.Op == "*" && len(t.Args) == 2 {
+								for i := 0; i < 2; i++ {
+									if t.Args[i].isConst() && t.Args[i].C == 2 && strings.HasPrefix(t.Args[1-i].String(), "field:len(") {
+										dbl = true
+									}
+								}
 							}
 						}
 					}
 				}
 			}
-		}
-		cx.R.Check(dbl, rule, name, "doubling", cx.P.where(in), "the new table has twice the old length (power of two keeps idx & (len-1) valid)")
-	})
+			cx.R.Check(dbl, rule, name, "doubling", cx.P.where(in), "the new table has twice the old length (power of two keeps idx & (len-1) valid)")
+		})
+	}
 	if copies == 0 {
-		cx.R.Violate(rule, name, "copy loop", cx.P.Pos(fn.Pos()), "expansion no longer copies existing stripes into the new table")
+		cx.R.Violate(rule, "lossy", "copy loop", "-", "NOT SATISFIED: expansion no longer copies existing stripes into the new table")
 	}
 }
 
 func ruleC17Single(cx *Ctx) {
 	const rule = "C17.single"
-	cx.R.Rule(rule, 2, "readBuffer.DrainTo is called only with the eviction lock held (single consumer)")
+	cx.R.Rule(rule, 1, "readBuffer.DrainTo is called only with the eviction lock held (single consumer)")
 	rb := cx.needField(rule, "", "cache", "readBuffer")
 	drain := cx.need(rule, lossyPkg, "Striped", "DrainTo")
 	if rb == nil || drain == nil {
@@ -554,7 +530,7 @@ func ruleC17NoEffect(cx *Ctx) {
 // ruleC17OnceAdd: one Add call records its node at most once (a recorded entry is never handed over twice).
 func ruleC17OnceAdd(cx *Ctx) {
 	const rule = "C17.onceadd"
-	cx.R.Rule(rule, 4, "within one Striped.Add / expandOrRetry call the node is recorded at most once: after a ring accepted it (add != Failed) or a new ring was created with it, no further recording is reachable")
+	cx.R.Rule(rule, 1, "within one Striped.Add / expandOrRetry call the node is recorded at most once: after a ring accepted it (add != Failed) or a new ring was created with it, no further recording is reachable")
 	radd := cx.need(rule, lossyPkg, "ring", "add")
 	newRing := cx.need(rule, lossyPkg, "", "newRing")
 	failed := statusConst(cx, "Failed")
@@ -574,9 +550,11 @@ func ruleC17OnceAdd(cx *Ctx) {
 			if isCallTo(in, newRing) {
 				return true
 			}
-			// delegating to expandOrRetry records too
-			if c := calleeOf(in); c != nil && c.Name() == "expandOrRetry" {
-				return true
+			// delegating to a helper of the package that (transitively) records counts too
+			if c := calleeOf(in); c != nil && c.Pkg != nil && strings.HasSuffix(c.Pkg.Pkg.Path(), lossyPkg) && origin(c) != origin(radd) && origin(c) != origin(newRing) {
+				if ok, _ := reachesInstr(c, func(x ssa.Instruction) bool { return isCallTo(x, radd) || isCallTo(x, newRing) }, map[*ssa.Function]bool{}, nil); ok {
+					return true
+				}
 			}
 			return false
 		}
